@@ -736,6 +736,10 @@ def gen_user(tier, seed):
         descs.append((["class", "Stationary", {"predicates": ps}], ps, "tuple", "stationary"))
     descs.append((["class", "General", {}], None, "none", "nonrev"))
     descs.append((["class", "GeneralStationary", {}], None, "nospec", "stationary"))
+    # multi-letter states: only single-position changes are instantaneous, so the cells GeneralStationary derives from
+    # stationarity are spread over the matrix (seeded change C05-s4 lived here)
+    descs.append((["class", "GeneralStationary", {"motif_length": 2, "mprob_model": "tuple"}], None, "nospec", "stationary"))
+    descs.append((["class", "General", {"motif_length": 2, "mprob_model": "tuple"}], None, "nospec", "nonrev"))
     for mpm in ("tuple", "conditional", "monomer", "monomers"):
         descs.append((["class", "TimeReversibleDinucleotide", {"predicates": ["kappa"], "mprob_model": mpm}], ["kappa"], mpm, "rev"))
         descs.append((["class", "TimeReversibleDinucleotide", {"predicates": ["kappa", "A/C"], "mprob_model": mpm}], ["kappa", "A/C"], mpm, "rev"))
@@ -749,8 +753,11 @@ def gen_user(tier, seed):
     pairs = [(0.0, 0.1), (1.0, 9.0)] if not thorough else [(0.0, 1e-6), (0.1, 1.0), (1.0, 9.0)]
     for desc, names, weight, claim in descs:
         nvec = 4 if thorough else 2
-        for vi in range(nvec + 3):
+        extra = (24 if thorough else 8) if desc[1] == "GeneralStationary" else 0
+        for vi in range(nvec + 3 + extra):
             val = None if vi >= 3 else (3.0, 0.2, "near-equal")[vi]
+            if vi >= nvec + 3:
+                val = "perturbed"      # all ones except a few: the region where a stationary matrix exists is small
             vseed = rnd.randrange(10 ** 6)
             for pk in (("g", "x") if thorough else ("g",)):
                 for (s, t) in pairs:
@@ -782,11 +789,23 @@ def check_user(case):
     r = random.Random(vseed)
     if val == "near-equal":      # all parameters equal up to 1e-9 relative steps (almost repeated eigenvalues)
         params = [(p, 3.0 + 1e-9 * i) for i, p in enumerate(pnames)]
+    elif val == "perturbed":
+        moved = set(r.sample(range(len(pnames)), min(len(pnames), r.choice((1, 2, 3, 6)))))
+        params = [(p, r.choice((2.0, 4.0, 8.0, 0.5)) if i in moved else 1.0) for i, p in enumerate(pnames)]
     else:
         params = [(p, val if val is not None else 10 ** r.uniform(-2, 2)) for p in pnames]
     if names is not None and sorted(pnames) != sorted(names):
         raise Broken("parameter-names", f"model has {pnames}, built from predicates {names}")
-    sm, lf = configure(desc, pi, params, (s, t, s + t), ex)
+    gs = None
+    if desc[1] == "GeneralStationary" and list(mal) == list(states):
+        gs = S.spec_general_stationary(list(states), dict(params), [pi[k] for k in states])
+    try:
+        sm, lf = configure(desc, pi, params, (s, t, s + t), ex)
+    except Refusal as e:
+        if gs is not None and gs[2] > 1e-6 and "ParameterOutOfBounds" in str(e):
+            raise Broken("refuses-parameters-for-which-a-stationary-matrix-exists",
+                         f"smallest derived exchangeability term of the stationary solution is {gs[2]:.3g} > 0")
+        raise
     w, reported = state_probs(sm, lf, weight)
     if abs(w.sum() - 1.0) > 1e-9 or w.min() <= 0:
         raise Broken("motif-probs-not-a-distribution", f"sum {w.sum()!r} min {w.min()!r}")
@@ -802,8 +821,10 @@ def check_user(case):
         elif weight == "monomers":
             arg = reported
         Qspec = S.spec_Q(states, dict(params), weight, arg)[0]
-    elif desc[1] == "General":
+    elif desc[1] == "General" and not desc[2]:
         Qspec = S.spec_Q(states, {p.replace("/", ">"): v for p, v in params}, "none", w)[0]
+    elif gs is not None and gs[2] > 1e-9:
+        Qspec = gs[0]
     stationary = claim in ("rev", "stationary")
     reversible = claim == "rev"
     Qs = {e: arr(lf.get_rate_matrix_for_edge(e)) for e in "abc"}
